@@ -549,6 +549,10 @@ func lpApply(l *fwface.NDNLPLinkService, frame []byte, measure bool, before stri
 			}
 			if changed {
 				key = lpRejectKeys[vd.class]
+			} else if vd.class == "completes-undecodable" {
+				if after := lpSlotOf(r.state, vd.base); after != "" && after != lpSlotOf(before, vd.base) {
+					key = lpStuckKey
+				}
 			}
 		} else if earlier != "" {
 			key, why = lpLaterKey, "frame accepted by the receive path"
